@@ -477,3 +477,13 @@ def run_c20(run, scratch, seed, tier):
 
 
 PROPS["C20"] = {"props_file": "C20.v", "run": run_c20}
+
+
+# ---------------------------------------------------------------- C09
+def run_c09(run, scratch, seed, tier):
+    st = suites.nested_suite(run, scratch, seed, sizes(tier, 120, 2500))
+    run.add_suite("nested_vs_standalone", st)
+    run.cov["rule"] = st["rule"]
+
+
+PROPS["C09"] = {"props_file": "C09.v", "run": run_c09}
